@@ -42,7 +42,7 @@ def gen_violation(rnd, in_msg):
     if k == "close_len1":
         return k, E(8, b"\x03")
     if k == "close_code":
-        return k, E(8, ref6455.close_payload(rnd.choice(RESERVED_CODES), b"x" * rnd.choice([0, 3])))
+        return k, E(8, ref6455.close_payload(rnd.choice(RESERVED_CODES), rnd.choice([b"", b"xxx", b'{"error": "going away"}', b"{0} {} %s %d }{", b"{"])))
     if k == "bad_utf8_text":
         if in_msg:
             return gen_violation(rnd, in_msg)   # the open message is binary: a continuation with any bytes is legal
@@ -91,7 +91,16 @@ def make_scenario(rnd):
         app = {rnd.randrange(2, 6): [rnd.choice([("text", b"hi", True), ("ping", b"x"), ("binary", b"\x00", True)])]}
     elif rnd.random() < 0.15:
         app = {rnd.randrange(1, 4): [("close", 1000, b"done")]}
-    sc = dict(cfg=simnet.default_cfg(), steps=scen.steps_from_chunks(chunks), app=app, keys=scen.keys(rnd, 12), key16=scen.KEY16)
+    steps = scen.steps_from_chunks(chunks)
+    cfg = simnet.default_cfg()
+    if rnd.random() < 0.25:
+        # a quiet connection on which the violating bytes arrive just when an automatic Ping has become due: after the error
+        # is reported the only frame the library may still write is its Close
+        cfg = simnet.default_cfg(ping_rate=rnd.choice([4, 6, 30]) * 1024, close_timeout=None)    # (no close timeout: it may not fire in the gap)
+        k = max(1, len(steps) - 1 - rnd.randrange(0, 3))
+        gap = cfg["ping_rate"] + rnd.choice([0, 1, 512, 1024])
+        steps = steps[:k] + [(steps[k][0], gap) + tuple(steps[k][2:])] + steps[k + 1:] if steps[k][0] == "data" else steps
+    sc = dict(cfg=cfg, steps=steps, app=app, keys=scen.keys(rnd, 12), key16=scen.KEY16)
     sc["_expect"] = scen.expected_events(completed)
     sc["_class"] = label
     sc["_inmsg"] = in_msg
